@@ -56,7 +56,7 @@ class JumperModel(Model):
                        )
 
         self.q = Algeb(info='active power (1 to 2)',
-                       e_str='u*(v1 - v2) + (1-u) * p',
+                       e_str='u*(v1 - v2) + (1-u) * q',
                        tex_name='Q',
                        diag_eps=True,
                        )
